@@ -55,9 +55,9 @@ def mc_spec(draws):
 
 
 def frame(asg=None):
-    data = {'Y': [float(asg.get(f'd_{i}_Y', 0.7)) if asg else 0.7 + i for i in range(NROWS)],
+    data = {'Y': [float(asg[f'd_{i}_Y']) if asg is not None else 0.7 + i for i in range(NROWS)],
             'RID': [float(i) for i in range(NROWS)],
-            'X': [float(asg.get(f'd_{i}_X', 0.3)) if asg else 0.3 + i for i in range(NROWS)]}
+            'X': [float(asg[f'd_{i}_X']) if asg is not None else 0.3 + i for i in range(NROWS)]}
     return pd.DataFrame(data, columns=COLUMNS)
 
 
